@@ -594,6 +594,44 @@ def run(ctx):
         ctx.require(fn is not None, "utils.string.%s missing" % fname)
         _judge_returns(fn, fn, tname, {})
 
+    # ---------------------------------------------------------------- R13
+    r = ctx.rule("C07-R13", "ORDER", "'maps ... every bool back to itself': in a converter the test for the more specific type comes first - no isinstance test for a type is "
+                 "preceded, on a path that does not return, by a test for one of its base types whose arm rebinds the value (bool is an int: `isinstance(True, int)`)", reference=2)
+    SUB = {"bool": ("int",), "int": (), "float": ()}
+    n13 = 0
+    from .c02 import converter_helpers
+    conv_fns, _b = converter_helpers(p.modules["clikit.utils.string"])
+    for fn in sorted(conv_fns, key=lambda f: f.name):
+        cfg = ctx.cfg(fn)
+        tests = []
+        for c in cfg.conds():
+            e = c.ast
+            if isinstance(e, ast.Call) and isinstance(e.func, ast.Name) and e.func.id == "isinstance" and len(e.args) == 2 and isinstance(e.args[0], ast.Name):
+                tys = [x.id for x in (e.args[1].elts if isinstance(e.args[1], ast.Tuple) else [e.args[1]]) if isinstance(x, ast.Name)]
+                tests.append((c, e.args[0].id, tys))
+        for c, var, tys in tests:
+            for t in tys:
+                for base in SUB.get(t, ()):
+                    n13 += 1
+                    # an earlier test for the base type whose true arm can reach this test (it did not return) after rebinding the value
+                    bad = None
+                    for c2, var2, tys2 in tests:
+                        if c2 is c or var2 != var or base not in tys2 or t in tys2:
+                            continue
+                        te = cfg.true_of(c2)
+                        if te is None or c.id not in cfg.reach([te.id]):
+                            continue
+                        rebinds = [w for w in cfg.writes(lambda x: x == var) if w.id in cfg.reach([te.id]) and c.id in cfg.reach([w.id]) and cfg.dominates(te.id, w.id)]
+                        if rebinds:
+                            bad = (c2, rebinds[0])
+                    if bad is None:
+                        r.ok("%s: isinstance(%s, %s) is not pre-empted by a test for %s" % (fn.short, var, t, base))
+                    else:
+                        r.fail(fn, c.ast, "isinstance(%s, %s) after the %s arm" % (var, t, base), "%s tests isinstance(%s, %s) only after the arm for %s has rebound %s (`%s`): a %s is a %s, so it never reaches "
+                               "its own arm - True becomes the text 'True', which is no boolean literal, and the conversion raises" % (fn.short, var, t, base, var, norm(bad[1].ast), t, base))
+    if n13 == 0:
+        r.vacuous_ok = True
+
     # ---------------------------------------------------------------- R12
     r = ctx.rule("C07-R12", "KEY", "an alias is filed by what it is after its dash prefix was removed: the value whose length decides short / long is the value that is "
                  "validated and stored (with or without the dash prefix the same alias lands in the same list)", reference=1)
